@@ -1501,3 +1501,120 @@ func firstSegment(key ast.Expr, fd *ast.FuncDecl, info *types.Info) (bool, strin
 	}
 	return false, "that is not the part of the name before its first dot, so a qualified name such as alias.sub.template misses its alias"
 }
+
+// R02j: scope.lookup decides by presence and innermost-first: inside its loop a value is returned only under
+// the comma-ok of a map index with the looked-up key (a name bound to an undefined or null value still
+// shadows), and the frame inspected first is the last one pushed.
+func ruleR02j(c *Ctx) {
+	p := c.pkg("soyhtml")
+	fd := c.mustFunc("soyhtml", "scope.lookup")
+	if p == nil || fd == nil {
+		return
+	}
+	info := p.TypesInfo
+	var keyParam types.Object
+	for _, fl := range fd.Type.Params.List {
+		for _, nm := range fl.Names {
+			keyParam = info.Defs[nm]
+		}
+	}
+	var recv types.Object
+	if fd.Recv != nil && len(fd.Recv.List) == 1 && len(fd.Recv.List[0].Names) == 1 {
+		recv = info.Defs[fd.Recv.List[0].Names[0]]
+	}
+	nret := 0
+	var visit func(n ast.Node, inLoop bool, guard *ast.IfStmt)
+	visit = func(n ast.Node, inLoop bool, guard *ast.IfStmt) {
+		ast.Inspect(n, func(x ast.Node) bool {
+			switch s := x.(type) {
+			case *ast.ForStmt:
+				visit(s.Body, true, nil)
+				return false
+			case *ast.RangeStmt:
+				visit(s.Body, true, nil)
+				return false
+			case *ast.IfStmt:
+				if s.Init != nil {
+					visit(s.Init, inLoop, guard)
+				}
+				visit(s.Body, inLoop, s)
+				if s.Else != nil {
+					visit(s.Else, inLoop, nil)
+				}
+				return false
+			case *ast.ReturnStmt:
+				if !inLoop {
+					return true
+				}
+				nret++
+				ok := false
+				if guard != nil {
+					if as, isAs := guard.Init.(*ast.AssignStmt); isAs && len(as.Lhs) == 2 && len(as.Rhs) == 1 {
+						if ix, isIx := ast.Unparen(as.Rhs[0]).(*ast.IndexExpr); isIx {
+							_, isMap := info.Types[ix.X].Type.Underlying().(*types.Map)
+							kid, isID := ast.Unparen(ix.Index).(*ast.Ident)
+							okID, isOK := as.Lhs[1].(*ast.Ident)
+							cid, condIsID := ast.Unparen(guard.Cond).(*ast.Ident)
+							vid, vIsID := as.Lhs[0].(*ast.Ident)
+							if isMap && isID && info.Uses[kid] == keyParam && isOK && condIsID && info.Uses[cid] == info.Defs[okID] &&
+								vIsID && len(s.Results) == 1 {
+								if rid, isR := ast.Unparen(s.Results[0]).(*ast.Ident); isR && info.Uses[rid] == info.Defs[vid] {
+									ok = true
+								}
+							}
+						}
+					}
+				}
+				c.check(ok, "R02j", "soyhtml.scope.lookup found-return#"+itoa(nret), s.Pos(), "returns the binding exactly when the frame has the key (comma-ok)",
+					"the frame search stops on a condition other than the presence of the key in the frame's map: a name bound to an undefined (or otherwise special) value no longer shadows the outer binding, so a callee or block sees an outer value it must not see")
+			}
+			return true
+		})
+	}
+	visit(fd.Body, false, nil)
+	c.floor("R02j", "returns inside the frame search", 1, nret)
+	// innermost first: the frame index is len(s)-i-1 for an ascending i, or i descending from len(s)-1
+	nidx, good := 0, 0
+	ast.Inspect(fd.Body, func(x ast.Node) bool {
+		ix, ok := x.(*ast.IndexExpr)
+		if !ok {
+			return true
+		}
+		id, ok := ast.Unparen(ix.X).(*ast.Ident)
+		if !ok || info.Uses[id] != recv {
+			return true
+		}
+		nidx++
+		k := exprKey(ix.Index)
+		r := id.Name
+		switch {
+		case k == "len("+r+") - i - 1" || k == "len("+r+") - 1 - i":
+			// i must ascend: range over s, or i++ from 0
+			ast.Inspect(fd.Body, func(y ast.Node) bool {
+				if rs, ok := y.(*ast.RangeStmt); ok && rs.Key != nil && exprKey(rs.Key) == "i" && exprKey(rs.X) == r {
+					good++
+				}
+				if fs, ok := y.(*ast.ForStmt); ok && fs.Post != nil {
+					if inc, ok := fs.Post.(*ast.IncDecStmt); ok && exprKey(inc.X) == "i" && inc.Tok == token.INC {
+						good++
+					}
+				}
+				return true
+			})
+		case k == "i":
+			ast.Inspect(fd.Body, func(y ast.Node) bool {
+				if fs, ok := y.(*ast.ForStmt); ok && fs.Post != nil && fs.Init != nil {
+					inc, ok1 := fs.Post.(*ast.IncDecStmt)
+					ini, ok2 := fs.Init.(*ast.AssignStmt)
+					if ok1 && ok2 && exprKey(inc.X) == "i" && inc.Tok == token.DEC && len(ini.Rhs) == 1 && exprKey(ini.Rhs[0]) == "len("+r+") - 1" {
+						good++
+					}
+				}
+				return true
+			})
+		}
+		return true
+	})
+	c.check(nidx > 0 && good == nidx, "R02j", "soyhtml.scope.lookup innermost-first", fd.Pos(), "frames are inspected from the last pushed outwards",
+		"the frame search does not visibly run from the last frame pushed to the first: an inner {let} or loop variable would no longer shadow an outer one")
+}
